@@ -1083,6 +1083,30 @@ def _check_autodiscover(run, world, mod, F, cfg, ys, fn):
                    "add_type is only reached when the QueryInstanceType "
                    "answer is truthy: enabled instances of type 0 are "
                    "silently dropped from the map", where(mod, n))
+    # ... and skips no more than that: the marks are dropped at a loop head
+    # (next instance / next device), so a mark that arrives at the device
+    # loop's head or at the end of the scan left a loop early
+    loops_ = [n for n in cfg.reachable if n.kind == "for"]
+    outer_ = [l for l in loops_ if _enclosing_for_ast(l.ast) is None]
+    inst_q = ("QueryInstanceEnabled", "QueryInstanceType")
+
+    def marks(w, only=None):
+        return sorted(f[1] for f in w if f[0] in ("bad", "off") and (
+            only is None or f[1] in only))
+    for l in outer_:
+        bad = WW.worlds_with(l, lambda w: bool(marks(w, inst_q)))
+        run.ob("R-DEVSEQ-QUIET", F + "#instance-skip-keeps-device", not bad,
+               "after a bad / 'not enabled' answer about one instance (%s) "
+               "the scan moves on to the next device: the remaining "
+               "instances of this device are never asked" % (
+                   marks(bad[0], inst_q) if bad else ""), where(mod, l))
+    stops = [y for y in ys if _short(_q(y)) == "StopQuiescentMode"]
+    for y in stops:
+        bad = WW.worlds_with(y.node, lambda w: bool(marks(w)))
+        run.ob("R-DEVSEQ-QUIET", F + "#skip-keeps-scan", not bad,
+               "after a bad answer (%s) the scan ends: the remaining devices "
+               "are never asked" % (marks(bad[0]) if bad else ""),
+               where(mod, y.node))
     # every query answer is checked before the next yield
     for y in ys:
         if y.cls is None or response_class_of(world, y.cls) is None:
